@@ -24,11 +24,19 @@ def roundtrip_functions(bib, value):
     """value -> persons (parts) -> merged value -> persons again. Returns (persons1, merged, persons2) or raises."""
     nm = bib.middlewares.names
     names = nm.split_multiple_persons_names(value)
-    p1 = [nm.parse_single_name_into_parts(n) for n in names]
-    merged = " and ".join(p.merge_last_name_first for p in p1)
+    o1 = [nm.parse_single_name_into_parts(n) for n in names]
+    p1 = [parts_of(p) for p in o1]
+    merged = " and ".join(p.merge_last_name_first for p in o1)
+    # the caller goes on working with the persons it got (here: edits them); what the merged text splits into is a
+    # function of that text
+    for p in o1:
+        p.first = ["<edited>"] + p.first
+        p.last.append("<edited>")
+        p.von.clear()
+    names.clear()
     names2 = nm.split_multiple_persons_names(merged)
     p2 = [nm.parse_single_name_into_parts(n) for n in names2]
-    return [parts_of(p) for p in p1], merged, [parts_of(p) for p in p2]
+    return p1, merged, [parts_of(p) for p in p2]
 
 
 def roundtrip_stack(bib, value, key):
@@ -37,14 +45,18 @@ def roundtrip_stack(bib, value, key):
     lib1 = bib.parse_string(doc, append_middleware=[m.SeparateCoAuthors(), m.SplitNameParts()])
     if not lib1.entries:
         return None, None, "first parse: " + str([type(b).__name__ for b in lib1.blocks])
-    v1 = lib1.entries[0][key]
+    o1 = lib1.entries[0][key]
+    v1 = [parts_of(p) for p in o1]
     text = bib.write_string(lib1, prepend_middleware=[m.MergeNameParts(allow_inplace_modification=False),
                                                       m.MergeCoAuthors(allow_inplace_modification=False)])
+    for p in o1:                      # (as above: the first library is edited after the document was written)
+        p.first = ["<edited>"] + p.first
+        p.last.append("<edited>")
     lib2 = bib.parse_string(text, append_middleware=[m.SeparateCoAuthors(), m.SplitNameParts()])
     if not lib2.entries:
-        return [parts_of(p) for p in v1], None, "second parse of %r: %s" % (text, [type(b).__name__ for b in lib2.blocks])
+        return v1, None, "second parse of %r: %s" % (text, [type(b).__name__ for b in lib2.blocks])
     v2 = lib2.entries[0][key]
-    return [parts_of(p) for p in v1], [parts_of(p) for p in v2], text
+    return v1, [parts_of(p) for p in v2], text
 
 
 _G = {}
@@ -87,7 +99,7 @@ def _chunk(lines):
             res["mism"].append(("inverse", value, {"merged": merged, "persons_after": p2}, p1, "functions"))
             continue
         if res["n"] % 6 == 0:
-            key = ("author", "editor", "translator")[res["n"] % 3]
+            key = ("author", "editor", "translator")[(res["n"] // 6) % 3]
             try:
                 v1, v2, text = roundtrip_stack(bib, value, key)
             except Exception as ex:  # noqa
